@@ -141,6 +141,11 @@ impl TokenFactory {
         RegistrationToken::new(self.next_token.forget_sub_id())
     }
 
+    /// The sub-id the next token will carry
+    pub(crate) fn next_sub_id(&self) -> u16 {
+        self.next_token.get_sub_id()
+    }
+
     /// Produce a new unique token
     pub fn token(&mut self) -> Token {
         let token = self.next_token;
